@@ -18,7 +18,7 @@
    one pair (C13_known_none_name_narrow).
    C13_refbundle: for a non-fragment bundle the status report built by new_status_report prints the bundle's ID
    (for a fragment new_status_report is `unimplemented!()`; DESIGN.md section 11).   Statements only. *)
-From BP7 Require Import Base.Prelude Base.Decimal Base.Str Gen.Consts Model.Types Model.EidText Model.BundleId Proofs.BundleIdProofs.
+From BP7 Require Import Base.Prelude Base.Decimal Base.Str Gen.Consts Model.Types Model.EidText Model.BundleId Model.AdminRecord Proofs.BundleIdProofs Proofs.ReportRefProofs.
 
 Definition C13_full : Prop := forall b1 b2, id_wf b1 = true -> id_wf b2 = true ->
   (bundle_id b1 = bundle_id b2 <-> ident b1 = ident b2).
@@ -80,6 +80,21 @@ Theorem C13_refbundle : forall b, has_fragmentation (b_primary b) = false ->
   exists sr, id_new_status_report b = Ok sr /\ id_refbundle sr = bundle_id b.
 Proof. exact refbundle_is_id. Qed.
 
+(* ... and for a report that comes off the wire (encoded by the reporting node, decoded by the receiver), about a fragment or not:
+   what the decoded report prints as refbundle() is Bundle::id() of the bundle it is about *)
+Theorem C13_received_report_refers : forall sr b, nf_report sr = true -> reports_about sr b ->
+  exists sr', admin_from_bytes (enc_admin_record (BundleStatusReport sr)) = Ok (BundleStatusReport sr')
+              /\ id_refbundle (sr_view sr') = bundle_id b.
+Proof. exact received_report_refers. Qed.
+
+(* hypotheses are satisfiable: a report about the FRAGMENT w2 (offset 2 of 100) and one about the whole bundle w1 *)
+Definition ex_report_w2 := mk_sr [mk_item true 0 false; mk_item false 0 false] 0 (Dtn 1 (B_ [47;47;110;47;97])) 5 1 2 100.
+Definition ex_report_w1 := mk_sr [mk_item true 0 false] 9 (Dtn 1 (B_ [47;47;110;47;97;45;53])) 1 2 0 0.
+Example C13_ex_received_report :
+  nf_report ex_report_w2 = true /\ reports_about ex_report_w2 w2 /\ nf_report ex_report_w1 = true /\ reports_about ex_report_w1 w1
+  /\ id_refbundle (sr_view ex_report_w2) = B_ [100;116;110;58;47;47;110;47;97;45;53;45;49;45;50].     (* "dtn://n/a-5-1-2" *)
+Proof. unfold reports_about. vm_compute. repeat split; reflexivity. Qed.
+
 (* non-vacuity *)
 Example C13_ex_wf : id_wf w1 = true /\ id_wf w2 = true /\ id_wf w3 = true /\ id_wf w4 = true.
 Proof. vm_compute. repeat split; reflexivity. Qed.
@@ -104,3 +119,4 @@ Print Assumptions C13_refuted_none_name.
 Print Assumptions C13_fragment_collides.
 Print Assumptions C13_known_none_name_narrow.
 Print Assumptions C13_refbundle.
+Print Assumptions C13_received_report_refers.
